@@ -11,6 +11,7 @@ import (
 	"io"
 	"log"
 	"math"
+	"sort"
 	"strings"
 	"sync"
 	"sync/atomic"
@@ -115,7 +116,7 @@ func genCase(t *rapid.T) Case {
 	}
 	switch c.Kind {
 	case "plyref":
-		f := plyref.Gen(t, plyref.Opts{ExcludeAsciiUcharScalar: false, MinVerts: 1, MaxVerts: 5, NonZero: true, UVCount: true, ForceFaces: rapid.Bool().Draw(t, "forceFaces")})
+		f := plyref.Gen(t, plyref.Opts{ExcludeAsciiUcharScalar: false, MinVerts: 1, MaxVerts: 5, NonZero: true, UVCount: true, BlankLines: true, ForceFaces: rapid.Bool().Draw(t, "forceFaces")})
 		c.Ply = &f
 	case "plywrite", "stl":
 		o := gen.MeshOpts{MaxN: 6, MinN: 1, MaxPrims: 4, NeedPos: true, Val: gen.Eighths(4),
@@ -596,6 +597,36 @@ func runLarge(c Case, o *vh.Obs) *vh.Failure {
 		if fl := judgeCut(f, full.m, k, label, 0, o); fl != nil {
 			return fl
 		}
+	}
+	// structural cuts: exactly after 2^j records and after every multiple of 4096 records - a reader
+	// that takes the records in blocks meets a clean end of input between two blocks only there
+	if !f.ascii {
+		rec := 4 * c.Cols
+		if c.Kind == "large-stl" {
+			rec = 50
+		}
+		marks := map[int]bool{}
+		for b := 1; b < c.Count; b *= 2 {
+			marks[b] = true
+		}
+		for b := 4096; b < c.Count; b += 4096 {
+			marks[b] = true
+		}
+		var ks []int
+		for b := range marks {
+			ks = append(ks, f.bodyStart+b*rec)
+		}
+		sort.Ints(ks)
+		for _, k := range ks {
+			if k <= f.bodyStart || k >= len(f.data) {
+				continue
+			}
+			done++
+			if fl := judgeCut(f, full.m, k, label, 0, o); fl != nil {
+				return fl
+			}
+		}
+		o.Class("large/cuts-between-record-blocks")
 	}
 	o.Evals(done)
 	o.NonTrivialSubs(done)
